@@ -32,6 +32,7 @@ def main():
     checks = [pid]
     tier = "quick"
     skip_confirm = False
+    use_worktree = False
     a = sys.argv[4:]
     while a:
         if a[0] == "--checks":
@@ -42,6 +43,12 @@ def main():
             a = a[2:]
         elif a[0] == "--skip-confirm":
             skip_confirm = True
+            a = a[1:]
+        elif a[0] == "--worktree":
+            # preliminary run: patch a scratch worktree and point the checks at it through
+            # VERIF_REPO instead of patching /repo (used while a long run needs /repo untouched);
+            # recorded under "preliminary_results", the official run is repeated later
+            use_worktree = True
             a = a[1:]
         else:
             a = a[1:]
@@ -56,7 +63,7 @@ def main():
 
     # the working tree of /repo must be clean before and after
     rc, o = sh("git -C %s status --porcelain --untracked-files=no" % REPO)
-    if o.strip():
+    if o.strip() and "--worktree" not in sys.argv:
         print("REFUSING: /repo has uncommitted changes:\n" + o)
         return 2
 
@@ -91,6 +98,38 @@ def main():
 
     # run the checks against /repo with the patch applied
     results = meta.get("check_results", {})
+    if use_worktree:
+        results = meta.get("preliminary_results", {})
+        wt2 = "/tmp/seedrun_%s_%s" % (pid, x)
+        sh("git -C %s worktree remove --force %s" % (REPO, wt2))
+        sh("git -C %s worktree add -q %s HEAD" % (REPO, wt2))
+        rc, o = sh("git apply %s" % os.path.abspath(patch), cwd=wt2)
+        try:
+            if rc != 0:
+                print("patch does not apply:", o)
+            else:
+                env = dict(os.environ, VERIF_REPO=wt2)
+                for ck in checks:
+                    t0 = time.time()
+                    rc, o = sh("bin/check.sh %s %s" % (ck, tier), cwd=VERIF, timeout=7200, env=env)
+                    viol = [l for l in o.splitlines() if l.startswith("VIOLATION")]
+                    detail = [l for l in o.splitlines() if l.startswith("  ") and not l.startswith("   ")][:3]
+                    results["%s/%s" % (ck, tier)] = {"exit": rc, "violations": viol[:3], "detail": [d[:700] for d in detail], "wall_s": round(time.time() - t0),
+                                                     "summary": o.strip().splitlines()[-1] if o.strip() else ""}
+                    print("%s %s (worktree): exit %d, %d VIOLATION line(s), %.0fs" % (ck, tier, rc, len(viol), time.time() - t0))
+                    for d in detail[:1]:
+                        print("   " + d[:300])
+        finally:
+            sh("git -C %s worktree remove --force %s" % (REPO, wt2))
+        meta["preliminary_results"] = results
+        shutil.copy(patch, os.path.join(out, "patch.diff"))
+        if os.path.exists(demo):
+            shutil.copy(demo, os.path.join(out, "demo.cpp"))
+        if os.path.exists(notes):
+            shutil.copy(notes, os.path.join(out, "notes.md"))
+        json.dump(meta, open(meta_path, "w"), indent=1)
+        sh("git checkout -- evidence", cwd=VERIF)
+        return 0
     rc, o = sh("git -C %s apply %s" % (REPO, os.path.abspath(patch)))
     if rc != 0:
         print("patch does not apply to /repo:", o)
